@@ -847,6 +847,86 @@ func registerProto(e *engine) {
 		}
 		return iface{}
 	})
+	// xmodel.MarshalMessages / UnmsarshalMessages walk a []*Msg through reflection; modelled on the wire
+	// format they produce: varint(count) followed by length-prefixed messages (proto.Buffer.EncodeMessage)
+	xm := modPath + "/bcs/ledger/xledger/state/xmodel."
+	e.reg(xm+"MarshalMessages", func(fr *frame, fn *ssa.Function, a []value) value {
+		m := fr.m
+		it, ok := a[0].(iface)
+		if !ok || it.t == nil {
+			return tuple{[]value(nil), iface{}}
+		}
+		sl, ok := it.t.Underlying().(*types.Slice)
+		if !ok {
+			return tuple{[]value(nil), m.mkError("bad slice type")}
+		}
+		pt, ok := sl.Elem().Underlying().(*types.Pointer)
+		if !ok {
+			return tuple{[]value(nil), m.mkError("elem of slice must be protobuf message")}
+		}
+		elems, _ := it.v.([]value)
+		if len(elems) == 0 {
+			return tuple{[]value(nil), iface{}}
+		}
+		out := pbLenBytes(len(elems))
+		for _, el := range elems {
+			p, _ := el.(*value)
+			if p == nil {
+				return tuple{[]value(nil), m.mkError("proto: Marshal called with nil")}
+			}
+			b := m.pbEncodeMsg(p, pt.Elem())
+			out = append(out, pbLenBytes(len(b))...)
+			out = append(out, b...)
+		}
+		return tuple{out, iface{}}
+	})
+	e.reg(xm+"UnmsarshalMessages", func(fr *frame, fn *ssa.Function, a []value) value {
+		m := fr.m
+		b, _ := a[0].([]value)
+		if b == nil {
+			return iface{}
+		}
+		it, ok := a[1].(iface)
+		if !ok || it.t == nil {
+			return m.mkError("must be slice ptr")
+		}
+		ppt, ok := it.t.Underlying().(*types.Pointer)
+		if !ok {
+			return m.mkError("must be slice ptr")
+		}
+		sl, ok := ppt.Elem().Underlying().(*types.Slice)
+		if !ok {
+			return m.mkError("must be slice ptr")
+		}
+		pt, ok := sl.Elem().Underlying().(*types.Pointer)
+		if !ok {
+			return m.mkError("elem of slice must be ptr type")
+		}
+		r := &pbReader{m: m, b: b}
+		total, ok := r.concVarint("message count")
+		if !ok {
+			return m.mkError("error while read message length:" + r.err)
+		}
+		if total > uint64(len(b)) {
+			total = uint64(len(b)) + 1 // every message takes at least its length byte: decoding fails below, as the real loop does
+		}
+		out := make([]value, 0, int(total))
+		for i := 0; i < int(total); i++ {
+			mb, ok := r.bytes()
+			if !ok {
+				return m.mkError("error while unmarshal message:" + r.err)
+			}
+			z := zero(pt.Elem())
+			p := &z
+			if err := m.pbDecodeMsg(mb, p, pt.Elem()); err != "" {
+				return m.mkError("error while unmarshal message:" + err)
+			}
+			out = append(out, p)
+		}
+		dst := it.v.(*value)
+		*dst = out
+		return iface{}
+	})
 	e.reg(pp+"Clone", func(fr *frame, fn *ssa.Function, a []value) value {
 		m := fr.m
 		it := a[0].(iface)
